@@ -9,6 +9,9 @@ mod c12;
 mod c16;
 mod c13;
 mod c17;
+mod c14;
+mod c14_gen;
+mod c14_jar;
 mod c19;
 mod choice;
 mod corpus;
@@ -18,6 +21,7 @@ mod refdiff;
 mod refmap;
 mod refmerge;
 mod refmvn;
+mod refnest;
 mod rng;
 mod sandbox;
 mod simdir;
@@ -106,6 +110,7 @@ fn dispatch(a: &Args, digest_only: bool) -> i32 {
         }
         "C17" => drive(&c17::C17, a, digest_only),
         "C13" => drive(&c13::C13, a, digest_only),
+        "C14" => drive(&c14::C14, a, digest_only),
         "C19" => drive(&c19::C19, a, digest_only),
         other => {
             eprintln!("harness error: no engine for {other}");
